@@ -454,7 +454,8 @@ def R4_mint_admission(run):
         if any(s_[0] == "call" and s_[1].endswith("spl_token_2022::native_mint::check_id") for s_ in subterms(at.term)):
             has_native = True
             native_at = at
-        if "is_some" in s and "freeze_authority" in s:
+        if "is_some" in s and "freeze_authority" in s and (sw is None or cfg.dominates(fn, at.block, sw)) and not has_freeze:
+            # the gate in front of the extension walk (a later re-use of the same test inside an arm is not it)
             has_freeze = True
             freeze_at = at
     run.check("R4", "native-2022", has_native, "native Token-2022 mint is no longer tested", loc=fn.loc(), detail="spl_token_2022::native_mint::check_id(mint key) atom present")
